@@ -31,6 +31,7 @@ fn main() {
         "C11" => props::c11::run(tier),
         "C14" => props::c14::run(tier),
         "C15" => props::c15::run(tier),
+        "C17" => props::c17::run(tier),
         "C19" => props::c19::run(tier),
         "C20" => props::c20::run(tier),
         _ => {
